@@ -157,11 +157,15 @@ func (ex *Exec) libModel(full string, e *ast.CallExpr, callee *types.Func) ([]Va
 			base := Const("bld"+id+".base", SInt)
 			fits := Lt(L, pow2(uint(8*n)))
 			var fs []*T
+			sum := I(0)
 			for i := 0; i < n; i++ {
-				// big-endian byte i of L
-				sh := uint(8 * (n - 1 - i))
-				fs = append(fs, Eq(App("memB", SInt, base, Add(p, I(int64(i)))), Mod(Div(L, pow2(sh)), I(256))))
+				bt := App("memB", SInt, base, Add(p, I(int64(i))))
+				sum = Add(Mul(sum, I(256)), bt)
+				if i == 0 {
+					sum = bt
+				}
 			}
+			fs = append(fs, Eq(sum, L))
 			ex.assume(Imp(fits, And(fs...)))
 			ex.st.env["$bld."+id+".err"] = Or(ex.get(ex.st, "$bld."+id+".err"), Not(fits))
 			return nil, true
@@ -272,6 +276,7 @@ func (ex *Exec) builderAppendBytes(id string, vals []*T) {
 	for i, v := range vals {
 		ex.assume(Eq(App("memB", SInt, base, Add(p, I(int64(i)))), v))
 	}
+
 	ex.st.env["$bld."+id+".len"] = Add(p, I(int64(len(vals))))
 }
 
@@ -339,6 +344,7 @@ func (ex *Exec) libModelVals(full string, callee *types.Func, recv *Val, args []
 		// int32 wrap-around
 		w := Mod(Add(nv, pow2(31)), pow2(32))
 		nv = Sub(w, pow2(31))
+		ex.checkWrite("$G.atomic32", recv.T)
 		ex.st.env["$G.atomic32"] = Store(cur, recv.T, nv)
 		return []Val{{nv, resTypes[0]}}, true
 	case "(*sync.Mutex).Lock", "(*sync.Mutex).Unlock", "(*sync.RWMutex).Lock", "(*sync.RWMutex).Unlock", "(*sync.RWMutex).RLock", "(*sync.RWMutex).RUnlock", "(*sync.WaitGroup).Add", "(*sync.WaitGroup).Done", "(*sync.WaitGroup).Wait":
@@ -357,26 +363,34 @@ func (ex *Exec) libModelVals(full string, callee *types.Func, recv *Val, args []
 			ex.errorf("builder method on unknown builder")
 			return ex.havocResults(resTypes, "bld"), true
 		}
-		be := func(v *T, n int) []*T {
-			var out []*T
+		// big-endian bytes of v as fresh byte constants tied to v by a linear equation (no div/mod)
+		addBE := func(v *T, n int) {
+			var bs []*T
+			sum := I(0)
 			for i := 0; i < n; i++ {
-				sh := uint(8 * (n - 1 - i))
-				out = append(out, Mod(Div(v, pow2(sh)), I(256)))
+				bt := ex.fresh("byte", SInt)
+				ex.assume(And(Le(I(0), bt), Lt(bt, I(256))))
+				bs = append(bs, bt)
+				sum = Add(Mul(sum, I(256)), bt)
+				if i == 0 {
+					sum = bt
+				}
 			}
-			return out
+			ex.assume(Imp(And(Le(I(0), v), Lt(v, pow2(uint(8*n)))), Eq(sum, v)))
+			ex.builderAppendBytes(id, bs)
 		}
 		switch callee.Name() {
 		case "AddUint8":
-			ex.builderAppendBytes(id, be(args[0].T, 1))
+			ex.builderAppendBytes(id, []*T{args[0].T})
 			return nil, true
 		case "AddUint16":
-			ex.builderAppendBytes(id, be(args[0].T, 2))
+			addBE(args[0].T, 2)
 			return nil, true
 		case "AddUint24":
-			ex.builderAppendBytes(id, be(Mod(args[0].T, pow2(24)), 3))
+			addBE(Mod(args[0].T, pow2(24)), 3)
 			return nil, true
 		case "AddUint32":
-			ex.builderAppendBytes(id, be(args[0].T, 4))
+			addBE(args[0].T, 4)
 			return nil, true
 		case "AddBytes":
 			base := Const("bld"+id+".base", SInt)
